@@ -37,7 +37,7 @@ Check_C01(s, e, o, s2) ==
              d == "tit" \o ToString(p.tit) \o "-qos" \o ToString(p.qos)
          IN IF ~legal \/ (p.tit = 2 /\ p.swild) THEN {}
             \* a predefined wildcard filter is not a topic name: nothing may be forwarded (cf. C24)
-            ELSE IF p.tit = 1 /\ name \in WildPredefNames THEN TagsIf(pubs # <<>>, Tag("C01", "forwarded-wildcard", d))
+            ELSE IF p.tit \in {0, 1} /\ name \in WildPredefNames THEN TagsIf(pubs # <<>>, Tag("C01", "forwarded-wildcard", d))
             ELSE IF name = "?none" THEN TagsIf(pubs # <<>>, Tag("C01", "forwarded-unresolvable", d))
             ELSE IF Len(pubs) # 1 THEN {Tag("C01", "not-exactly-one-publish", d)}
             ELSE LET m == pubs[1] IN
